@@ -106,6 +106,9 @@ func (h *killedHandler) cleanupIfNotRestarting() {
 		ActorRef: h.ctx.ref,
 		Type:     reflect.TypeOf(h.ctx.actor),
 	})
+
+	// 因故障被挂起的邮箱在终止后需要恢复，使积压的普通消息得以排空并进入死信，而非永久滞留
+	h.ctx.mailbox.Resume()
 }
 
 // cleanupScheduler 清理调度器
